@@ -74,10 +74,38 @@ def run(ctx):
             if None not in an and [x[0] for x in a["attrs"]] != an:
                 bad("%s: DIE %#x has attributes %s, readelf lists %s" % (os.path.basename(p), a["off"], [x[0] for x in a["attrs"]], b["attrnames"]), case)
                 break
+    # the raw view stays raw: what `parent`, `child`, `root`, `unit` hand back for a raw value is
+    # again the stored tree (no integrated attributes, no inlined imports), and a unit seen through
+    # `raw` / `cooked` conversions is the same unit at the same offset
+    LAWS = [
+        ("raw:parent-is-raw", "raw entry parent (|P| ?([P attribute label] != [P raw attribute label]), ?([P child offset] != [P raw child offset]))"),
+        ("raw:child-is-raw", "raw entry child (|C| ?([C attribute label] != [C raw attribute label]), ?([C child offset] != [C raw child offset]))"),
+        ("raw:root-is-raw", "raw entry root (|R| ?([R child offset] != [R raw child offset]))"),
+        ("raw:unit-root-is-raw", "raw unit root (|R| ?([R child offset] != [R raw child offset]), ?([R attribute label] != [R raw attribute label]))"),
+        ("raw:attribute-keeps-die", "raw entry (|D| D attribute (|A| ?([A label] != [A raw label])))"),
+        ("unit:raw-conversion-keeps-offset", "unit (|U| ?((U raw offset) != (U offset)))"),
+        ("unit:cooked-conversion-keeps-offset", "raw unit (|U| ?((U cooked offset) != (U offset)))"),
+        ("unit:raw-conversion-keeps-root", "unit (|U| ?((U raw root offset) != (U root offset)))"),
+        ("unit:of-entry-raw-conversion", "entry (|D| ?((D unit raw offset) != (D raw unit offset)))"),
+        ("unit:raw-unit-entry-in-unit", "raw unit (|U| U entry ?(unit offset != U offset))"),
+    ]
+    nlaw = 0
+    lawfiles = [(n, p) for n, _, p in inputs] + [(os.path.basename(p), p) for p in dwforest.sample_files()]
+    for name, p in lawfiles:
+        probe = zw.run_cases([zw.enc("[raw unit offset]", dw=p)])[0]
+        if not probe.ok():
+            continue
+        counts = dwforest.law_counts(p, LAWS)
+        for ln, q in LAWS:
+            stats["evaluations"] += 1
+            nlaw += 1
+            if counts[ln] != 0:
+                bad("on %s the law %s is broken: `%s` yields %s (must yield nothing)" % (name, ln, q, counts[ln]), {"input": name, "file": p, "law": ln, "query": q})
     common.report_broken_obligations(ctx, oblig, bool(ctx.violations))
     ctx.cov.update({
         "evaluations": stats["evaluations"], "distinct_nontrivial": stats["dies"],
-        "rule": "%d generated inputs (9 named shapes: empty units between/after units in DWARF 2-5, childless DIEs whose abbreviation claims children, 60-deep nesting, 40 units, repeated attribute names, nested/diamond/repeated imports, specification chains; random forests with 1-7 units, arity <= 4, depth <= 4, forms string/strp/data1/2/udata/sdata/flag/flag_present/ref1/ref4/ref_udata/ref_addr), every DIE compared on position, offset, tag, child flag, parent, children, attribute (name, form) list, root and unit with the model's rows; %d sample binaries compared with readelf on order, offsets, parents, tags and attribute names" % (len(inputs), nsamples),
+        "law_evaluations": nlaw,
+        "rule": "%d generated inputs (9 named shapes: empty units between/after units in DWARF 2-5, childless DIEs whose abbreviation claims children, 60-deep nesting, 40 units, repeated attribute names, nested/diamond/repeated imports, specification chains; random forests with 1-7 units, arity <= 4, depth <= 4, forms string/strp/data1/2/udata/sdata/flag/flag_present/ref1/ref4/ref_udata/ref_addr), every DIE compared on position, offset, tag, child flag, parent, children, attribute (name, form) list, root and unit with the model's rows; %d sample binaries compared with readelf on order, offsets, parents, tags and attribute names; zero-count laws on all of them: what parent/child/root/unit hand back for a raw value is raw again, raw/cooked conversions of a unit keep its offset and root" % (len(inputs), nsamples),
         "samples": [inputs[0][0], inputs[-1][0]],
         "traces_validated_against_impl": stats["dies"],
         "violations_found": nviol[0],
